@@ -90,8 +90,8 @@ claim("C13", "other",
       "Not decided: RAM contents byte for byte (opaque asset bytes). Both machines, all recorder/asset failure points.",
       "DESIGN.md §3 C13")
 claim("C14", "other",
-      "path-sensitive interpretation of the three loaders (one SZX chunk per path, arm identified by the parser entered): model-guard dominance, chunk layout tables by term equivalence, must-definition per chunk arm, pairing of AY register stores with generator writes; effect trace of the screen resynchronisation routine",
-      "Model guards of SNA/SZX/SCR, Z80R 37-byte map incl. flags and execution state, SPCR paging/lock/border/speaker without emulated time, AMXM, RAMP renumbering and page existence, unknown chunks inert, AY set_regs forwarding, SCR target page and refresh.",
+      "path-sensitive interpretation of the three loaders (one SZX chunk per path, arm identified by the parser entered): model-guard dominance, chunk layout tables by term equivalence, must-definition per chunk arm, pairing of AY register stores with generator writes; effect trace of the screen resynchronisation routine; final AY chip state after the AY chunk handler (chip methods inlined)",
+      "Model guards of SNA/SZX/SCR, Z80R 37-byte map incl. flags and execution state, SPCR paging/lock/border/speaker without emulated time, AMXM, RAMP renumbering and page existence, unknown chunks inert, AY set_regs forwarding, SCR target page and refresh. AY chunk: selected register = byte 1 mod 16, register file and generator = chAyRegs.",
       "Not decided: equality of behaviour of two encodings, zlib correctness, KEYB (not listed by the statement).",
       "DESIGN.md §3 C14")
 claim("C15", "other",
